@@ -184,7 +184,7 @@ def main(tier, seed):
                           "Proofs/TickerP.v", "Model/NSim.v", "Proofs/LatestP.v", "Proofs/EqvP.v", "Proofs/InlineP.v", "Proofs/InlineLoopP.v",
                           "Proofs/InlineScopeP.v", "Proofs/InlineLatestP.v", "Proofs/WakeWfP.v", "Proofs/ExtentP.v", "Proofs/Confluence2P.v",
                           "Proofs/ScheduleP.v", "Proofs/SimTraceP.v", "Model/SimTime.v", "Model/Inline.v", "Proofs/ParDevP.v", "Proofs/FuelP.v",
-                          "Proofs/Confluence3P.v", "Model/NNSim.v", "Proofs/NScheduleP.v", "Proofs/NDetP.v", "Proofs/NDetScopeP.v", "Proofs/NDetXP.v", "Proofs/SimNTP.v", "Proofs/ExtentP.v", "Model/Interrupts.v", "Oracle/ScopeCheck.v",
+                          "Proofs/Confluence3P.v", "Model/NNSim.v", "Proofs/NScheduleP.v", "Proofs/NDetP.v", "Proofs/NDetScopeP.v", "Proofs/NDetXP.v", "Proofs/SimNTP.v", "Proofs/MsgLevelP.v", "Proofs/ExtentP.v", "Model/Interrupts.v", "Oracle/ScopeCheck.v",
                           "Proofs/FrameP.v", "Proofs/NonInterfP.v", "Proofs/NonInterfLoopP.v", "Props/C08.v"],
                          "schedule independence", extra=net_part)
 
